@@ -90,6 +90,12 @@ func (s *Linear) spacingAtLevel(level int, roundOut bool) (firstN, lastN, spacin
 	if double && s.Base == 0 {
 		spacing *= 5
 	}
+	if math.IsInf(spacing, 1) {
+		// The quotients below would collapse to zero and
+		// lose their signs. Any spacing beyond every finite
+		// value selects the same ticks.
+		spacing = math.MaxFloat64
+	}
 
 	// Add a tiny bit of slack to the floor and ceiling below so
 	// that rounding errors don't significantly affect tick marks.
